@@ -23,7 +23,7 @@ ASSUMPTIONS = [
     "op alphabet of 21 commands over four fixed treebanks (export, brackets, TIGER-XML, PTB-style brackets with traces) and two terminal files with "
     "different names and contents",
 ]
-OUTSIDE = ["histories longer than the bound", "terminal files with the same name and different content",
+OUTSIDE = ["histories longer than the bound", "more than two readers alive at once; interleaving of anything but readers", "terminal files with the same name and different content",
            "hash seeds other than the two used for the baseline"]
 
 T1 = "1 1 NEW1 XX\n2 2 NEW2 YY\n"
@@ -336,6 +336,81 @@ def additive(m, n, a, swap, **kw):
     return ""
 
 
+# ----------------------------------------------------------------------------- interleaved readers
+IFMT = ["export", "brackets", "discobrackets", "tigerxml"]
+IEXT = {"export": "export", "brackets": "mrg", "discobrackets": "dbr", "tigerxml": "xml"}
+
+
+SC2 = ("N", "VROOT", "--", (("T", "u", "Q4", "--", "lu", "m4", 1), ("N", "VP", "HD", (("T", "v", "Q5", "HD", "lv", "m5", 2),))))
+
+
+def _ifile(fmt, cont):
+    """three sentences (cont False) or two (cont True), continuous for the bracket formats"""
+    sents = [(4, SC), (5, SC2)] if cont else [(1, SC2), (2, SC), (3, SC2 if fmt == "brackets" else SD)]
+    if fmt == "export":
+        return enc_export(sents).encode("utf-8")
+    if fmt == "tigerxml":
+        return enc_tiger(sents)
+    return enc_brackets([(None, sp) for (_i, sp) in sents], fw=None, disco=(fmt == "discobrackets")).encode("utf-8")
+
+
+def _obs(tree):
+    from harness.symtree import wellformed
+    from harness.formats import spec_of_tree
+    w = wellformed(tree)
+    return ("malformed: " + w) if w else (tree.data.get("sid"), spec_of_tree(tree))
+
+
+def interleave(fa, fb, gza, gzb, same, s1, s2, s3, s4, **kw):
+    """two lazily consumed readers alive at once, advanced in an arbitrary order: each yields what it yields alone
+    (files in different directories, optionally with the same base name, optionally gzip-compressed)"""
+    import gzip
+    stubs.install()
+    stubs.mkdir("da")
+    stubs.mkdir("db")
+    names = []
+    for (d, f, gz, cont) in (("da", fa, gza, False), ("db", fb, gzb, True)):
+        fmt = IFMT[f]
+        name = "%s/%s.%s" % (d, "x" if same else "x" + d, IEXT[IFMT[fa]] if same else IEXT[fmt])
+        data = _ifile(fmt, cont)
+        if gz:
+            name, data = name + ".gz", gzip.compress(data)
+        stubs.MemFS.files[name] = data
+        names.append((fmt, name))
+    alone = []
+    for (fmt, name) in names:
+        try:
+            alone.append([_obs(t) for t in getattr(treeinput, fmt)(name, "utf-8", quiet=True)])
+        except Exception as e:      # noqa
+            return "%s reader failed on %s: %s: %s" % (fmt, name, type(e).__name__, e)
+    if [len(a) for a in alone] != [3, 2]:
+        return "readers alone yield %r sentences, the files have [3, 2]" % ([len(a) for a in alone],)
+    gens = [getattr(treeinput, fmt)(name, "utf-8", quiet=True) for (fmt, name) in names]
+    got = [[], []]
+    live = [True, True]
+    sched = [s1, s2, s3, s4]
+    step = 0
+    while live[0] or live[1]:
+        w = 1 if (sched[step] if step < len(sched) else False) else 0
+        step += 1
+        if not live[w]:
+            w = 1 - w
+        try:
+            got[w].append(_obs(next(gens[w])))
+        except StopIteration:
+            live[w] = False
+        except Exception as e:      # noqa
+            return "%s reader on %s, interleaved with the %s reader on %s, failed: %s: %s" % (
+                names[w][0], names[w][1], names[1 - w][0], names[1 - w][1], type(e).__name__, e)
+        if step > 12:
+            return "readers do not terminate"
+    for w in (0, 1):
+        if got[w] != alone[w]:
+            return "%s reader on %s yields %r when interleaved with the %s reader on %s, and %r alone" % (
+                names[w][0], names[w][1], got[w], names[1 - w][0], names[1 - w][1], alone[w])
+    return ""
+
+
 def conds(tier):
     q = tier == "quick"
     cs = []
@@ -352,6 +427,13 @@ def conds(tier):
         cs.append(Cond("additive-m%d-n%d" % (m, n), "harness.c18:additive", e1_params(m, n) + [P("a", "int", 0, len(AOPS)), P("swap", "bool")],
                        fixed={"m": m, "n": n}, pre=[e1_wf_expr(m, n)], shard=["a"] + (["swap"] if m * n >= 9 else []),
                        timeout=600 if q else 3000, functions=FUNCS))
+    ipars = [P("fa", "int", 0, 4), P("fb", "int", 0, 4), P("gza", "bool"), P("gzb", "bool"), P("same", "bool")] + \
+            [P("s%d" % i, "bool") for i in range(1, 5)]
+    cs.append(Cond("interleave", "harness.c18:interleave", ipars,
+                   pre=["gza == gzb and s4 == s1 and s3 == s2"] if q else [], shard=["fa", "fb"], timeout=600 if q else 3000,
+                   functions=["treeinput.export", "treeinput.brackets", "treeinput.discobrackets", "treeinput.tigerxml", "misc.gunzip"],
+                   note="two readers (all format pairs, plain or gzip sources in two directories, same or different base name), "
+                        "every order of advancing them: 16 schedules of the first four steps"))
     return cs
 
 
